@@ -7,6 +7,7 @@ import (
 	"encoding/json"
 	"fmt"
 	"mime/multipart"
+	"regexp"
 	"sort"
 	"strings"
 	"sync"
@@ -86,10 +87,22 @@ func (e *c17Env) checkList() []disc {
 
 // create tries to create the bucket and judges the answer.
 func (e *c17Env) create(name string) (ds []disc, verdict oracle.NameVerdict, accepted bool) {
+	return e.createVia(name, &s3x.Req{Method: "PUT", Path: "/" + name}, "")
+}
+
+// c17HostLabel: names that can be sent as the bucket label of a Host header
+var c17HostLabel = regexp.MustCompile(`^[A-Za-z0-9_-]{1,63}$`)
+
+// createHost creates the bucket virtual-host style on a server with the host base s3.test.
+func (e *c17Env) createHost(name string) (ds []disc, verdict oracle.NameVerdict, accepted bool) {
+	return e.createVia(name, &s3x.Req{Method: "PUT", Host: name + ".s3.test", Path: "/"}, " (Host "+name+".s3.test, PUT /)")
+}
+
+func (e *c17Env) createVia(name string, rq *s3x.Req, how string) (ds []disc, verdict oracle.NameVerdict, accepted bool) {
 	verdict = oracle.BucketName(name)
-	r := s3x.Do(e.st.Handler, &s3x.Req{Method: "PUT", Path: "/" + name})
+	r := s3x.Do(e.st.Handler, rq)
 	fail := func(kind, f string, a ...interface{}) {
-		ds = append(ds, disc{Kind: kind, Detail: fmt.Sprintf("backend=%s name=%q: ", e.st.Kind, name) + fmt.Sprintf(f, a...)})
+		ds = append(ds, disc{Kind: kind, Detail: fmt.Sprintf("backend=%s name=%q%s: ", e.st.Kind, name, how) + fmt.Sprintf(f, a...)})
 	}
 	if r.Panic != "" {
 		fail("panic", "%s at %s", r.Panic, r.PanicSite)
@@ -321,6 +334,13 @@ func c17Replay(check string, raw json.RawMessage) ([]disc, error) {
 	}
 	e := newC17Env(cs.Backend)
 	defer e.st.Close()
+	if strings.HasPrefix(cs.Name, "host-style ") {
+		e.st.Close()
+		e = &c17Env{st: backends.Must(backends.Mem, backends.Options{HostBases: []string{"s3.test"}}), created: map[string]bool{}}
+		defer e.st.Close()
+		ds, _, _ := e.createHost(strings.TrimPrefix(cs.Name, "host-style "))
+		return append(ds, e.checkList()...), nil
+	}
 	if strings.HasPrefix(cs.Name, "in-flight ") {
 		ds, _ := c17InFlight(e, strings.TrimPrefix(cs.Name, "in-flight "))
 		return ds, nil
@@ -373,6 +393,10 @@ func c17Run(t *testing.T, c *evid.Collector) {
 		envs[k] = newC17Env(k)
 		defer envs[k].st.Close()
 	}
+	// the same decision when the name arrives as the label of a Host header (memory backend with the
+	// host base s3.test)
+	hostEnv := &c17Env{st: backends.Must(backends.Mem, backends.Options{HostBases: []string{"s3.test"}}), created: map[string]bool{}}
+	defer hostEnv.st.Close()
 	n := 0
 	valid := 0
 	one := func(name, src string) bool {
@@ -399,6 +423,22 @@ func c17Run(t *testing.T, c *evid.Collector) {
 			c.Case(evid.FP(string(k), name), nb, func() interface{} { return cs }, labels...)
 			if report(c, "create", ds, cs) {
 				bad = true
+			}
+		}
+		if c17HostLabel.MatchString(name) {
+			ds, verdict, acc := hostEnv.createHost(name)
+			if firstAcc != nil && *firstAcc != acc {
+				ds = append(ds, disc{Kind: "addressing-styles-differ", Detail: fmt.Sprintf("name=%q: created path-style accepted=%v, as a Host label accepted=%v", name, *firstAcc, acc)})
+			}
+			cs := c17Case{backends.Mem, "host-style " + name}
+			c.Case(evid.FP("host-style", name), nb, func() interface{} { return cs }, "backend:mem", "src:"+src, "host-style", fmt.Sprintf("verdict:%d", verdict))
+			if report(c, "create", ds, cs) {
+				bad = true
+			}
+			if n%64 == 0 {
+				if report(c, "listbuckets", hostEnv.checkList(), cs) {
+					bad = true
+				}
 			}
 		}
 		n++
